@@ -13,7 +13,7 @@
 (*           liga_component_pos on marks), o.err = error / panic text.      *)
 (* An Apply event refers to the latest Prog event (same `case`).  The judge *)
 (* recomputes the denotation: the run must be Gsub!GsubDenote of the        *)
-(* program under one of the conformant readings (DevChoices).  A run that   *)
+(* program under one of the conformant readings (DevChoicesFor).  A run that   *)
 (* equals the known NON-conformant reading (mark filtering set hides        *)
 (* non-mark glyphs) is reported with that name, to give the finding a       *)
 (* stable key.  Judging style: Next is always enabled, a non-conforming     *)
@@ -56,7 +56,7 @@ JudgeProg(e) ==
 
 JudgeApply(e) ==
   LET prog == Rec[pl].a.prog
-      outs == {ObsRun(prog.gdef, GsubDenote(prog, dev, e.a.in)) : dev \in DevChoices}
+      outs == {ObsRun(prog.gdef, GsubDenote(prog, dev, e.a.in)) : dev \in DevChoicesFor(prog)}
       std  == ObsRun(prog.gdef, GsubDenote(prog, DevStd, e.a.in))
       bug  == IF e.o.err = "" /\ e.o.run = ObsRun(prog.gdef, GsubDenote(prog, DevMfsBug, e.a.in))
               THEN "mfs-hides-non-marks" ELSE ""
